@@ -206,7 +206,9 @@ def _def_chain(f, e, depth=0, seen=None):
     for x in ast.walk(e):
         if isinstance(x, ast.Name):
             for d in ast.walk(f.node):
-                if isinstance(d, ast.Assign) and len(d.targets) == 1 and U(d.targets[0]) == x.id and d.value not in seen:
+                if isinstance(d, ast.Assign) and len(d.targets) == 1 and d.value not in seen and (
+                        U(d.targets[0]) == x.id or (isinstance(d.targets[0], ast.Tuple) and any(
+                            isinstance(t, ast.Name) and t.id == x.id for t in d.targets[0].elts))):
                     _def_chain(f, d.value, depth + 1, seen)
     return seen
 
